@@ -1,12 +1,19 @@
 """C04 — copy-on-write arrays behave as independent values (mptcore/array/*.c)."""
+import os
+import vcheck
 from vcheck import DiffProperty, ASAN_ENV
 
 HDR, PAGE = 64, 128
 ARITY = {"app": 2, "appz": 2, "ins": 3, "set": 4, "setz": 4, "slc": 3, "slw": 3, "rsv": 3, "cln": 2, "clr": 1,
          "red": 1, "bins": 3, "bcut": 3, "bset": 4, "bsetz": 4, "prt": 2, "str": 1, "new": 3, "flg": 2,
-         "mks": 4, "wr": 4, "wrz": 3}
-HEXARG = {"app": 1, "ins": 2, "set": 3, "slw": 2, "bins": 2, "bset": 3, "prt": 1, "wr": 3}   # index of the hex argument
-MUTATORS = ("app", "appz", "ins", "set", "setz", "slc", "slw", "rsv", "red", "prt", "str", "wr", "wrz")
+         "mks": 4, "wr": 4, "wrz": 3,
+         "xcp": 2, "xclr": 1, "xapp": 2, "xins": 3, "xset": 2, "xsetz": 2, "xsets": 2, "xasl": 2, "xmks": 2,
+         "xshf": 2, "xtrm": 2}
+HEXARG = {"app": 1, "ins": 2, "set": 3, "slw": 2, "bins": 2, "bset": 3, "prt": 1, "wr": 3,
+          "xapp": 1, "xins": 2, "xset": 1, "xsets": 1}   # index of the hex argument
+CXX_OPS = ("xcp", "xclr", "xapp", "xins", "xset", "xsetz", "xsets", "xasl", "xmks", "xshf", "xtrm")
+MUTATORS = ("app", "appz", "ins", "set", "setz", "slc", "slw", "rsv", "red", "prt", "str", "wr", "wrz",
+            "xapp", "xins", "xset", "xsetz", "xsets", "xasl", "xshf", "xtrm")
 
 
 def asz(n):
@@ -145,6 +152,162 @@ class C04(DiffProperty):
         if "mutate-nonempty" not in cl and len(ops) < 2:
             return set()
         return cl
+
+    # ------------------------------------------------------------ two harness binaries
+    cxx_harness_src = "c04_cxx.cpp"
+    cxx_libs = ["mpt++", "mptcore"]
+    # the C buffers carry a C function table instead of a C++ vtable: UBSan's vptr check rejects every virtual
+    # call on them, so the translation unit that contains mpt++/array.cpp is built without that one check
+    cxx_flags = ["-fno-sanitize=vptr"]
+
+    @staticmethod
+    def is_cxx(case):
+        return any(t in CXX_OPS for t in case.split())
+
+    def evaluate(self, cases, workdir, tagsuffix=""):
+        """cases that use the C++ API go to harness/c04_cxx.cpp, the others to harness/c04_array.c; one model run"""
+        hx = vcheck.build_harness(self.harness_src, self.libs, extra=self.extra_harness_flags)
+        mx = vcheck.build_model(self.mlname, self.driver, self.extract_vo)
+        ided = ["c%d %s" % (i, c) for i, c in enumerate(cases)]
+        c_cases = [l for l, c in zip(ided, cases) if not self.is_cxx(c)]
+        x_cases = [l for l, c in zip(ided, cases) if self.is_cxx(c)]
+        I, errs = {"I": {}}, []
+        if c_cases:
+            r, e = vcheck.run_cases(hx, c_cases, workdir, "impl" + tagsuffix, env=self.harness_env, args=self.harness_args)
+            I["I"].update(r.get("I", {})); errs += e
+        if x_cases:
+            cx = vcheck.build_harness(self.cxx_harness_src, self.cxx_libs, extra=self.cxx_flags)
+            r, e = vcheck.run_cases(cx, x_cases, workdir, "implcxx" + tagsuffix, env=self.harness_env, args=self.harness_args)
+            I["I"].update(r.get("I", {})); errs += e
+        M, e2 = vcheck.run_cases(mx, ided, workdir, "model" + tagsuffix)
+        res = []
+        for i, c in enumerate(cases):
+            k = "c%d" % i
+            res.append(self.compare(c, I["I"].get(k), M.get("M", {}).get(k), M.get("S", {}).get(k)))
+        return res, errs + e2
+
+    def cxx_patched(self):
+        """which of the two proposed patches of docs/C04_cxx_patches.diff the tree under test contains"""
+        try:
+            txt = open(os.path.join(vcheck.REPO, "mpt++", "array.cpp")).read()
+        except OSError:
+            return False, False
+        return "mpt_array_insert(this" in txt, "mpt_buffer_set(buf, traits, 0, ptr, len)" in txt
+
+    def cxx_sweep(self, rng):
+        ins_ok, sets_ok = self.cxx_patched()
+        by = Bytes(rng)
+        cases = []
+        for L in (0, 1, 3, 63, 64, 65, 200):
+            for typed in (0, 1):
+                for fl in (0, 1, 2):
+                    for sh in (0, 1, 2):       # private / shared with an array / shared with a slice
+                        pre = (["prt", "0", by.take(L, False)] if typed else ["xapp", "0", by.take(L, False)])
+                        if fl:
+                            pre += ["flg", "0", str(fl)]
+                        if sh == 1:
+                            pre += ["xcp", "1", "0"]
+                        if sh == 2:
+                            pre += ["xmks", "4", "0"]
+                        u, s = L, asz(L)
+                        free = s - u
+                        ops = []
+                        for n in sorted(set([0, 1, free, free + 1])):
+                            ops.append(["xapp", "0", by.take(n)])
+                            ops.append(["xset", "0", by.take(n)])
+                        for n in sorted(set([0, max(0, u - 1), u, u + 1, s, s + 1])):
+                            ops.append(["xset", "0", by.take(n)])
+                            ops.append(["xsetz", "0", str(n)])
+                        ops += [["xclr", "0"], ["xcp", "0", "1"], ["xcp", "0", "2"], ["xcp", "2", "0"], ["xcp", "0", "0"],
+                                ["str", "0"], ["prt", "0", by.take(3, False)], ["xmks", "5", "0"], ["xmks", "4", "2"]]
+                        if ins_ok:
+                            for p in sorted(set([0, 1, u // 2, u, u + 2, 40])):
+                                for n in sorted(set([0, 1, 20, free, free + 1])):
+                                    ops.append(["xins", "0", str(p), by.take(n)])
+                        if sets_ok:
+                            for n in (0, 1, 3, 63, 64, 65):
+                                ops.append(["xsets", "0", by.take(n, False)])
+                        for n1 in sorted(set([0, 1, u, u + 1])):
+                            for n2 in sorted(set([0, 1, max(0, u - n1), max(0, u - n1) + 1])):
+                                tail = ["xmks", "5", "0", "xshf", "5", str(n1), "xtrm", "5", str(n2)]
+                                ops.append(tail + ["xasl", "1", "5"])
+                                ops.append(tail + ["xasl", "0", "5"])
+                                ops.append(tail + ["wr", "5", "2", "1", by.take(2), "xasl", "2", "5"])
+                        for o in ops:
+                            cases.append(" ".join(pre + o))
+        return cases
+
+    def gen_cxx_history(self, rng, nops):
+        ins_ok, sets_ok = self.cxx_patched()
+        by = Bytes(rng)
+        u = [0] * 6
+        names = (["xapp"] * 12 + ["xset"] * 7 + ["xsetz"] * 2 + ["xcp"] * 12 + ["xclr"] * 2 + ["xasl"] * 6 + ["xmks"] * 8
+                 + ["xshf"] * 5 + ["xtrm"] * 5 + ["prt"] * 4 + ["str"] * 2 + ["wr"] * 6 + ["wrz"] * 2 + ["flg"] * 3
+                 + (["xins"] * 10 if ins_ok else []) + (["xsets"] * 4 if sets_ok else []))
+        ops = []
+        for _ in range(nops):
+            op = rng.choice(names)
+            x = rng.choice([0, 1, 0, 1, 2, 3]) if rng.random() < 0.97 else rng.randrange(0, 7)
+            ux = u[x] if x < 6 else 0
+            s = asz(ux)
+            free = s - ux
+            ln = lambda: rng.choice([0, 1, 1, 2, 3, 4, 8, max(0, free - 1), free, free + 1, 64, 128, rng.randrange(0, 200)])
+            sidx = rng.choice([4, 4, 5]) if rng.random() < 0.97 else rng.randrange(0, 7)
+            if op == "xapp":
+                n = ln(); ops.append([op, str(x), by.take(n)])
+                if x < 4: u[x] += n
+            elif op == "xins":
+                p = around(rng, [0, 1, ux // 2, ux, ux + 1, 40, s]); n = ln()
+                ops.append([op, str(x), str(p), by.take(n)])
+                if x < 4: u[x] = max(ux, p) + n
+            elif op in ("xset", "xsetz"):
+                n = rng.choice([0, 1, max(0, ux - 1), ux, ux + 1, s, s + 1, ln()])
+                ops.append([op, str(x), by.take(n) if op == "xset" else str(n)])
+                if x < 4: u[x] = n
+            elif op == "xsets":
+                n = rng.choice([0, 1, 5, 63, 64, rng.randrange(0, 100)])
+                ops.append([op, str(x), by.take(n, False)])
+                if x < 4: u[x] = n + 1
+            elif op == "xcp":
+                y = rng.randrange(0, 4) if rng.random() < 0.97 else rng.randrange(0, 7)
+                ops.append([op, str(x), str(y)])
+                if x < 4 and y < 4: u[x] = u[y]
+            elif op == "xclr":
+                ops.append([op, str(x)])
+                if x < 4: u[x] = 0
+            elif op == "xasl":
+                ops.append([op, str(x), str(sidx)])
+                if x < 4 and sidx in (4, 5): u[x] = u[sidx]
+            elif op == "xmks":
+                y = rng.randrange(0, 4) if rng.random() < 0.97 else rng.randrange(0, 7)
+                ops.append([op, str(sidx), str(y)])
+                if sidx in (4, 5) and y < 4:
+                    u[sidx] = u[y]
+                    if rng.random() < 0.3:
+                        ops.append(["xclr", str(y)]); u[y] = 0
+            elif op in ("xshf", "xtrm"):
+                us = u[sidx] if sidx < 6 else 0
+                n = rng.choice([0, 1, 1, 2, us // 2, us, us + 1])
+                ops.append([op, str(sidx), str(n)])
+                if sidx in (4, 5) and n <= us: u[sidx] = us - n
+            elif op == "prt":
+                n = rng.choice([0, 1, 5, max(0, free - 1), free, 63, 64, 65])
+                ops.append([op, str(x), by.take(n, False)])
+            elif op == "str":
+                ops.append([op, str(x)])
+            elif op == "flg":
+                ops.append([op, str(x), str(rng.choice([0, 1, 2, 3]))])
+            else:
+                us = u[sidx] if sidx < 6 else 0
+                fr = asz(us) - us
+                es = rng.choice([1, 1, 2, 3, 8, 0, max(1, fr), fr + 1])
+                nb = rng.choice([0, 1, 2, 3, (fr // es if es else fr), (fr // es + 1 if es else fr + 1)])
+                if op == "wr" and es:
+                    ops.append(["wr", str(sidx), str(nb), str(es), by.take(nb * es)])
+                else:
+                    ops.append(["wrz", str(sidx), str(nb), str(es)])
+                if sidx in (4, 5) and es: u[sidx] = us + nb * es
+        return " ".join(t for o in ops for t in o)
 
     # ------------------------------------------------------------ generators
     def sweep(self, rng):
@@ -341,6 +504,9 @@ class C04(DiffProperty):
         n = self.quick_n if tier == "quick" else self.thorough_n
         for i in range(n):
             cases.append(self.gen_history(rng, rng.choice([1, 2, 3, 4, 6, 8, 10, 12, 16, 20, 25])))
+        cases += self.cxx_sweep(rng)
+        for i in range(n // 2):
+            cases.append(self.gen_cxx_history(rng, rng.choice([1, 2, 3, 4, 6, 8, 10, 12, 16, 20, 25])))
         return cases
 
 
